@@ -1,13 +1,15 @@
 #!/bin/sh
 # Must-fail corpus: every patch under selftest/mutants is named <Cxx>-<what>.patch, compiles, and breaks
-# property Cxx; the check of Cxx must report a VIOLATION on it. Applies to /repo's working tree and reverts.
+# property Cxx; the check of Cxx must report a VIOLATION on it (CxxT-<what>.patch: the thorough tier must). Applies to /repo's working tree and reverts.
 cd "$(dirname "$0")/.." || exit 2
 fail=0
 for p in selftest/mutants/${1:-}*.patch; do
   prop=$(basename "$p" | cut -d- -f1)
+  tier=quick
+  case "$prop" in *T) prop=${prop%T}; tier=thorough;; esac   # CxxT-...: caught by the thorough tier only
   if ! git -C /repo apply --check "$(pwd)/$p" 2>/dev/null; then echo "SKIP (does not apply) $p"; continue; fi
   git -C /repo apply "$(pwd)/$p"
-  out=$(bin/govc check -prop "$prop" -tier quick -out "$(pwd)/out/selftest" 2>&1)
+  out=$(bin/govc check -prop "$prop" -tier $tier -out "$(pwd)/out/selftest" 2>&1)
   code=$?
   git -C /repo apply -R "$(pwd)/$p"
   if [ $code -eq 1 ] && echo "$out" | grep -q "^VIOLATION property=$prop"; then
